@@ -139,6 +139,20 @@ def run(ctx: Ctx) -> None:
                         call_key = call.call_id.key
                         before_n, before_q = o.count_invocations(), app.broker.count_invocations()
                         cnt_before = census_check("before") or {}
+                        # a transient fault: the ONE read of the stored invocation this submission makes finds nothing (a lagging replica, a
+                        # purge that is being rolled back).  The submission may fail; it must not take that for "no such invocation"
+                        fault = {"armed": mode != "disabled" and bool(cnt_before.get(regkey(bound))) and ctx.rng.random() < 0.12, "fired": False}
+                        sb = app.state_backend
+                        if fault["armed"]:
+                            real_get = sb._get_invocation
+
+                            def flaky_get(invocation_id, _real=real_get, _f=fault):  # type: ignore[no-untyped-def]
+                                if not _f["fired"]:
+                                    _f["fired"] = True
+                                    return None
+                                return _real(invocation_id)
+
+                            sb._get_invocation = flaky_get  # type: ignore[method-assign]
                         try:
                             inv = task(*args, **kwargs)
                             if isinstance(inv, ReusedInvocation):
@@ -149,7 +163,22 @@ def run(ctx: Ctx) -> None:
                             impl = ("err diffargs", None)
                         except BaseException as e:  # noqa: BLE001
                             impl = (f"err other:{type(e).__name__}", None)
+                        finally:
+                            if fault["armed"]:
+                                del sb._get_invocation
                         after_n, after_q = o.count_invocations(), app.broker.count_invocations()
+                        if fault["fired"]:
+                            ctx.count()
+                            ctx.distinct((kind, ci, "read-fault", impl[0].split(":")[0]))
+                            if impl[0] == "new" or after_n != before_n or after_q != before_q:
+                                ctx.report(f"read-fault-registers-a-second[{kind}]:{mode}",
+                                           f"[{kind}] a REGISTERED invocation with the key of the call exists; the one read of its stored record finds nothing: the submission answered {impl[0]} "
+                                           f"(invocations {before_n}->{after_n}, queue {before_q}->{after_q}) - an unanswered read is not \"nothing registered\"",
+                                           {"backend": kind, "mode": mode, "keys": keys, "raise": rse, "call": bound})
+                                if impl[0] == "new":
+                                    invs[impl[1]] = {"args": bound, "status": "registered", "call": call_key}
+                            census_check("submission with a read fault")
+                            continue
                         fresh = impl[1] if impl[0] == "new" else f"unused{unused}"
                         unused += 1
                         rid = "ExternalRunner"
